@@ -203,8 +203,10 @@ def _preannotate(arts, variant, family):
     ti.weak = True
     ti.paranoid_lib_version = 'older-0.1'
   elif variant == 'negative-high':
+    # an older run recorded a higher severity than the check documents today
+    lowname = {'rsa': 'CheckSizes', 'ec': 'CheckValidECKey', 'ecdsa': 'CheckIssuerKey'}[family]
     e = ti.test_results.add()
-    e.test_name, e.result, e.severity = first, False, SV.CRITICAL
+    e.test_name, e.result, e.severity = lowname, False, SV.CRITICAL
     ti.paranoid_lib_version = 'older-0.1'
   elif variant == 'extra-factor' and family == 'rsa':
     a = ti.attached_info.add()
@@ -424,7 +426,7 @@ def plan(tier, seed):
                 ['small-256k1', 'binary', 'healthy-224']]
   ec_pair = [['healthy-256', 'near-256'], ['near-256', 'unknown', 'healthy-256']]
   for b in ec_batches:
-    for v in (VARIANTS if thorough else ['fresh', 'positive-low', 'weak-no-entry']):
+    for v in (VARIANTS if thorough else ['fresh', 'positive-low', 'weak-no-entry', 'negative-high']):
       if v == 'extra-factor':
         continue
       T.append(Task('ec-bookkeeping', 'search', {'family': 'ec', 'names': b, 'variant': v,
@@ -440,7 +442,7 @@ def plan(tier, seed):
                  ['sameissuer', 'weakissuer', 'biased3', 'biased2', 'biased1']]
   for b in sig_batches:
     for v in (['fresh', 'positive-low', 'negative-high', 'weak-no-entry', 'other-version']
-              if thorough else ['fresh', 'positive-low']):
+              if thorough else ['fresh', 'positive-low', 'negative-high']):
       T.append(Task('ecdsa-bookkeeping', 'search', {'family': 'ecdsa', 'names': b, 'variant': v,
                                                     'max_states': 200},
                     bound='7 signatures (healthy, 3 biased of one issuer, healthy of the same '
